@@ -3,6 +3,7 @@
    composition (backup program -> archive -> restore) is in Props/C03.v etc. *)
 From Coq Require Import Sorted Permutation.
 From CV Require Import Base.Str Apath ApathP Entry Codec CodecP Tree TreeP.
+From CV Require Dest DestP DestTreeP.
 
 (* Modification times: what backup stores decodes to the source time, for every
    timestamp (pre-1970 and sub-second included), with a legal nanosecond field. *)
@@ -137,3 +138,50 @@ Theorem C01_backup_keeps_ready :
     Ready pre (snd (fst (run pre (backup_prog pre c src) a0 []))).
 Proof. exact backup_keeps_ready. Qed.
 Print Assumptions C01_backup_keeps_ready.
+
+(* ------------------------------------------------------------------------- *)
+(* The destination side (Dest.v): what restore's file-system calls make of the list of
+   entries the restore program hands over.  For the listing of a real tree ([tree_listing]:
+   valid distinct paths, no unknown kinds, symlinks with targets, every directory listed
+   before its contents -- what a source walk in path order records), restoring into an empty
+   destination reports no error, restores every entry, never resolves a path through a
+   symlink, and leaves EXACTLY the listed tree: at every path the listed node with its kind,
+   bytes or target, and nothing at any other path.  (Modes, owners and times are compared by
+   the runs, not modelled.) *)
+Theorem C01_fresh_restore_builds_exactly_the_listed_tree :
+  forall (content_of : entry -> bytes) (es : list entry) (s : Dest.dstate),
+    DestTreeP.tree_listing es -> Dest.restore_into content_of false [] es = Some s ->
+    Dest.d_esc s = 0%N /\ Dest.d_errs s = 0%N /\ Dest.d_done s = map e_apath es /\
+    (forall p, p <> [] ->
+       Dest.node_at (Dest.d_fs s) p =
+       match find (fun e => Dest.rpath_eqb (comps (e_apath e)) p) es with
+       | Some e => Some (DestTreeP.node_of content_of e)
+       | None => None
+       end).
+Proof. exact DestTreeP.fresh_restore_builds_the_tree. Qed.
+Print Assumptions C01_fresh_restore_builds_exactly_the_listed_tree.
+
+(* ... and the hypothesis on the listing can be decided (the runs evaluate it on the listings
+   of real versions). *)
+Theorem C01_tree_listing_checker_sound :
+  forall es : list entry, DestTreeP.tree_listingb es = true -> DestTreeP.tree_listing es.
+Proof. exact DestTreeP.tree_listingb_sound. Qed.
+Print Assumptions C01_tree_listing_checker_sound.
+
+(* "Every directory before its contents" is needed for "nothing else is there": a file whose
+   directory is not listed has it made on the way. *)
+Theorem C01_unlisted_parent_refuted :
+  exists content_of es s,
+    (forall e, In e es -> is_valid (e_apath e) = true) /\ NoDup (map e_apath es) /\
+    (forall e, In e es -> e_kind e <> KUnknown) /\
+    (forall e, In e es -> e_kind e = KSymlink -> e_target e <> None) /\
+    (forall e, In e es -> comps (e_apath e) = [] -> e_kind e = KDir) /\
+    Dest.restore_into content_of false [] es = Some s /\
+    exists p, p <> [] /\
+      Dest.node_at (Dest.d_fs s) p <>
+      match find (fun e => Dest.rpath_eqb (comps (e_apath e)) p) es with
+      | Some e => Some (DestTreeP.node_of content_of e)
+      | None => None
+      end.
+Proof. exact DestTreeP.without_parents_first_refuted. Qed.
+Print Assumptions C01_unlisted_parent_refuted.
